@@ -6,7 +6,7 @@ from ._script_common import run_family
 
 
 def family(tier):
-    return skeletons.expr_family() + skeletons.stmt_family(tier)
+    return skeletons.expr_family() + skeletons.stmt_family(tier) + skeletons.ctx_family(tier)
 
 
 def run(tier, seed, only=None):
@@ -14,7 +14,7 @@ def run(tier, seed, only=None):
         "C01", "translation_validation", tier, seed, only, family(tier),
         passes=2 if tier == "quick" else 3,
         budget_s=200 if tier == "quick" else 900,
-        explanation="For every skeleton of the expr and stmt families: the emitted C++ is lowered to LLVM IR and executed "
+        explanation="For every skeleton of the expr, stmt and ctx (every statement kind x every block context) families: the emitted C++ is lowered to LLVM IR and executed "
                     "symbolically (setup(); loop()^N), the same script is executed by CPython against the real host modules "
                     "with symbolic sensor values, and for every pair of compatible paths z3 decides whether the normalised "
                     "event traces (serial text, delays, pin commands) can differ.  sat => replay on a g++ build of the same "
